@@ -35,6 +35,7 @@ func (pr *propertyReference) getValue() Value {
 	if pr.base == nil {
 		panic(pr.runtime.panicReferenceError("'%s' is not defined", pr.name, pr.at))
 	}
+	pr.recordSite()
 	return pr.base.get(pr.name)
 }
 
@@ -42,8 +43,20 @@ func (pr *propertyReference) putValue(value Value) string {
 	if pr.base == nil {
 		return pr.name
 	}
+	pr.recordSite()
 	pr.base.put(pr.name, value, pr.strict)
 	return ""
+}
+
+// recordSite notes the position of the member expression in the current frame
+// before the property is read or written: the access may invoke a getter or
+// setter (whose caller would otherwise show its previous call site, or
+// <unknown>, in a stack trace) or raise an error of its own (e.g. an invalid
+// array length).
+func (pr *propertyReference) recordSite() {
+	if pr.at >= 0 && pr.runtime.scope != nil {
+		pr.runtime.scope.frame.offset = int(pr.at)
+	}
 }
 
 func (pr *propertyReference) delete() bool {
